@@ -2,7 +2,7 @@
 
 Real code under contract:
   prqlc/prqlc/src/sql/pq/postprocess.rs  assign_names: body of `for decl in decls.sorted_by_key(..) { .. }`  (CTE names)
-                                         RelVarNameAssigner::fold_rel: slice `while name.as_ref().map_or(..) { .. } self.relation_instance_names.insert(..);`
+                                         RelVarNameAssigner::fold_rel: everything between obtaining the relation instance and `Ok(rel)`
 """
 import re
 
@@ -20,7 +20,7 @@ ASSUMED = [
     {"what": "HashSet<Ident> / HashSet<String> are shims with ghost set views (contains / insert); Ident::from_name(s) is the one-segment identifier s; "
              "Option<Ident>::clone / Option<String>::clone are the identity; NameGenerator::gen() returns SOME string (nothing about it is assumed here: "
              "its freshness is ids_names.NG1)",
-     "keys": ["struct IdentSet", "struct StrSet", "fn view", "fn contains", "fn insert", "fn ident_from_name", "fn clone_opt_ident", "fn clone_opt_string", "struct NameGen", "fn gen"]},
+     "keys": ["struct IdentSet", "struct StrSet", "fn view", "fn contains", "fn insert", "fn ident_from_name", "fn clone_opt_ident", "fn clone_opt_string", "fn clone_string", "fn inferred_name", "Option::<T>::or_else", "struct NameGen", "fn gen"]},
     {"what": "TERMINATION of the two `while` loops is NOT proved (it needs the generator's freshness against a finite set): "
              "#[verifier::exec_allows_no_decreases_clause]", "keys": ["exec_allows_no_decreases_clause"]},
 ]
@@ -59,6 +59,14 @@ pub struct Anchor { pub table_name: NameGen }
 pub struct Context { pub anchor: Anchor }
 pub struct SqlTableDecl { pub name: Option<Ident> }
 pub struct RelVarNameAssigner { pub relation_instance_names: StrSet, pub ctx: Box<Context> }
+pub assume_specification<T, F: FnOnce() -> Option<T>>[ Option::<T>::or_else ](a: Option<T>, f: F) -> (r: Option<T>)
+    requires a is None ==> f.requires(()),
+    ensures a is Some ==> r == a, a is None ==> f.ensures((), r);
+pub struct TableRefShim { pub name: Option<String> }
+pub struct RelationInstance { pub table_ref: TableRefShim }
+pub type RelationExpr = OpaqueT;
+#[verifier::external_body] pub fn inferred_name(rel: &RelationExpr) -> Option<String> { unimplemented!() }
+#[verifier::external_body] pub fn clone_string(s: &String) -> (r: String) ensures r == *s, { unimplemented!() }
 """
 
 
@@ -97,30 +105,40 @@ def build(X):
     else:
         an.text += "\n// no loop left in the naming code: the loop invariant has nothing to attach to // @AN4\n"
 
-    # ---- relation instance names
-    rn = X.slice(POSTPROCESS, "fold_rel", "while name", "self.relation_instance_names.insert(", name="name_one_instance", end_stmt=True,
+    # ---- relation instance names: everything of fold_rel between obtaining the instance and `Ok(rel)`
+    rn = X.slice(POSTPROCESS, "fold_rel", "let instance = self.ctx.anchor.relation_instances.get_mut(riid).unwrap();", "Ok(rel)", name="name_one_instance", include_end=False,
                  after="impl PqMapper<RelationExpr, RelationExpr, (), ()> for RelVarNameAssigner")
+    rn.text = rn.text[len("let instance = self.ctx.anchor.relation_instances.get_mut(riid).unwrap();"):]
+    # the inference of a name from the referenced table: `match &rel.kind { .. }` (whatever its arms) -> inferred_name(rel)
+    m = re.search(r"match &rel\.kind \{", rn.text)
+    if m:
+        toks = code_tokens(rn.text)
+        k = next(i for i, t in enumerate(toks) if t[1] == m.end() - 1)
+        e = toks[match_brace(rn.text, toks, k)][2]
+        rn.text = rn.text[:m.start()] + "inferred_name(rel)" + rn.text[e:]
+        rn.rewrites.append({"rule": "R5", "what": "`match &rel.kind { Ref(tid) => <name of the table declaration>, _ => None }` replaced by inferred_name(rel) (external, uninterpreted)"})
     rn.rewrite_re("R8", r"name\s*\.as_ref\(\)\s*\.map_or\(true, \|n\| self\.relation_instance_names\.contains\(n\)\)",
                   "(match name.as_ref() { None => true, Some(n) => self.relation_instance_names.contains(n) })", count=None,
                   why="Option::map_or with a closure desugared to a match")
-    rn.rewrite_re("R5", r"\bname\.clone\(\)", "clone_opt_string(&*name)", count=None, why="Option<String>::clone")
+    rn.rewrite_re("R5", r"\bname\.clone\(\)\.unwrap\(\)", "clone_opt_string(&*name).unwrap()", count=None, why="Option<String>::clone")
+    rn.rewrite_re("R5", r"\bname\.clone\(\)", "clone_string(&name)", count=None, why="String::clone")
     rn.text = ("impl RelVarNameAssigner {\n#[verifier::exec_allows_no_decreases_clause]\n"
-               "pub fn name_one_instance(&mut self, name: &mut Option<String>)\n"
+               "pub fn name_one_instance(&mut self, instance: &mut RelationInstance, rel: &RelationExpr)\n"
                "    ensures\n"
                "        // C09 / C07: the relation instance has an alias that no instance of this SELECT was given before ..\n"
-               "        *final(name) is Some && !old(self).relation_instance_names.view().contains((*final(name))->0), // @RN1\n"
-               "        final(self).relation_instance_names.view() == old(self).relation_instance_names.view().insert((*final(name))->0), // @RN2\n"
+               "        final(instance).table_ref.name is Some && !old(self).relation_instance_names.view().contains(final(instance).table_ref.name->0), // @RN1\n"
+               "        final(self).relation_instance_names.view() == old(self).relation_instance_names.view().insert(final(instance).table_ref.name->0), // @RN2\n"
                "        // .. and an alias that is present and unused is kept\n"
-               "        (*old(name) is Some && !old(self).relation_instance_names.view().contains((*old(name))->0)) ==> *final(name) == *old(name), // @RN3\n"
+               "        (old(instance).table_ref.name is Some && !old(self).relation_instance_names.view().contains(old(instance).table_ref.name->0))\n"
+               "            ==> final(instance).table_ref.name == old(instance).table_ref.name, // @RN3\n"
                "{\n    " + rn.text + "\n}\n}\n")
     if re.search(r"\b(while|loop|for)\b", rn.text.split("{", 1)[1]):
         rn.loop_contract(1, """
         invariant
             self.relation_instance_names.view() == old(self).relation_instance_names.view(),
-            (*old(name) is Some && !old(self).relation_instance_names.view().contains((*old(name))->0)) ==> *name == *old(name), // @RN4
+            (old(instance).table_ref.name is Some && !old(self).relation_instance_names.view().contains(old(instance).table_ref.name->0)) ==> *name == old(instance).table_ref.name, // @RN4
         """, fn_name="name_one_instance")
     else:
         rn.text += "\n// no loop left in the naming code: the loop invariant has nothing to attach to // @RN4\n"
-    rn.rewrites.append({"rule": "slice", "what": "the `while` loop and the insert of fold_rel wrapped as fn name_one_instance(&mut self, name); `name` is the `&mut Option<String>` "
-                        "borrowed from relation_instances"})
+    rn.rewrites.append({"rule": "slice", "what": "statements of fold_rel after `let instance = ..get_mut(riid).unwrap();` up to `Ok(rel)` wrapped as fn name_one_instance(&mut self, instance, rel)"})
     return PRELUDE + an.text + "\n" + rn.text + "\n} // verus!\nfn main() {}\n"
